@@ -304,6 +304,104 @@ def check_epochs(ld, n, failing, plan, with_key, res, where='below'):
             return
 
 
+CONTROL_TYPES = (StopIteration, IndexError, KeyError, AssertionError, NotImplementedError,
+                 TypeError, AttributeError, LookupError, ValueError)
+
+
+def slots(ld, f, pred):
+    """Every place that accepts a user function, and the stages that sit on
+    top of a raising map: name -> (pipeline builder, catch on top possible)."""
+    src = lambda: ld.new({f'k{i}': i for i in range(6)})      # noqa: E731
+    dmap = lambda x: {'v': x}                                   # noqa: E731
+    return {
+        'map': (lambda: src().map(f), True),
+        'map.items': (lambda: src().map(f).items(), True),
+        'filter-lazy': (lambda: src().filter(pred), False),
+        'filter-lazy.items': (lambda: src().filter(pred).items(), False),
+        'filter-eager': (lambda: src().filter(pred, lazy=False), True),
+        'batch_map': (lambda: src().batch(2).batch_map(f), True),
+        'apply-eager': (lambda: src().apply(lambda d: d.map(f)), True),
+        'apply-lazy': (lambda: src().apply(lambda d: d.map(f), lazy=True), False),
+        'sort-key': (lambda: src().sort(lambda x: f(x)), True),
+        'groupby-fn': (lambda: [e for g in src().groupby(lambda x: f(x)).values()
+                                for e in g], False),
+        'bucket-len_key': (lambda: src().map(dmap).batch_dynamic_time_series_bucket(
+            2, lambda e: f(e['v']) + 1, 0.9), False),
+        'bucket-sort_key': (lambda: src().map(dmap).batch_dynamic_time_series_bucket(
+            2, lambda e: 1, 0.5, sort_key=lambda e: f(e['v'])), False),
+        'map.batch': (lambda: src().map(f).batch(2), True),
+        'map.batch3': (lambda: src().map(f).batch(3), True),
+        'map.batch.unbatch': (lambda: src().map(f).batch(2).unbatch(), False),
+        'map.key_zip': (lambda: src().map(f).key_zip(src()), True),
+        'map.zip': (lambda: src().map(f).zip(src()), True),
+        'map.intersperse': (lambda: src().map(f).intersperse(src()), True),
+        'map.concatenate': (lambda: src().map(f).concatenate(ld.new({'q': 9})), True),
+        'map.concatenate.items': (lambda: src().map(f).concatenate(
+            ld.new({'q': 9})).items(), True),
+        'map.tile': (lambda: src().map(f).tile(2), True),
+        'map.tile-shuffle': (lambda: src().map(f).tile(2, shuffle=True), True),
+        'map.shuffle': (lambda: src().map(f).shuffle(), True),
+        'map.reshuffle': (lambda: src().map(f).shuffle(True), False),
+        'map.local-shuffle': (lambda: src().map(f).shuffle(True, buffer_size=2), False),
+        'map.slice': (lambda: src().map(f)[::-1], True),
+        'map.cache': (lambda: src().map(f).cache(), True),
+        'map.eager-cache': (lambda: src().map(f).cache(lazy=False), True),
+        'map.diskcache': (lambda: src().map(f).diskcache(), True),
+        'new(map)': (lambda: ld.new(src().map(f)), True),
+        'map.prefetch1': (lambda: src().map(f).prefetch(1, 2), False),
+        'map.prefetch-pool': (lambda: src().map(f).prefetch(2, 2, 't'), False),
+        'map.batch.prefetch-pool': (lambda: src().map(f).batch(2).prefetch(2, 2, 't'), False),
+        'parallel-map': (lambda: src().map(f, num_workers=2, buffer_size=2), True),
+        'map.cycle': (lambda: (x for _, x in zip(range(9), src().map(f).cycle())), False),
+        'map.profiling': (lambda: ld.core.ProfilingDataset(src().map(f)), False),
+        'map.split': (lambda: src().map(f).split(2)[1], True),
+        'map.random_choice': (lambda: src().map(f).random_choice(6, replace=False), True),
+    }
+
+
+def check_slot(ld, slot, exc_type, with_catch, res):
+    """A user function raises an exception of a type that stages also use for
+    their own control flow; nothing catches it (or an unrelated type is
+    caught): the consumer gets that exception - never a regular end, a shorter
+    result, or a wrong example."""
+    case = {'slot': slot, 'exception': exc_type.__name__, 'catch_unrelated_on_top': with_catch,
+            'site': 'user-function-slots'}
+    raised = []
+
+    def f(x):
+        if x == 3:
+            e = exc_type(('user', 3))
+            raised.append(e)
+            raise e
+        return x
+
+    def pred(x):
+        f(x)
+        return True
+    builder, catchable = slots(ld, f, pred)[slot]
+    if with_catch and not catchable:
+        return
+    res.case(('slot', slot, exc_type.__name__, with_catch), True)
+    sig = {'site': 'user-function-slots', 'slot': slot.split('.')[-1]}
+    got = []
+    try:
+        d = builder()
+        if with_catch:
+            d = d.catch(E2)
+        for x in d:
+            got.append(x)
+    except BaseException as e:
+        res.count('user_errors_in_function_slots_reported')
+        chain = [e, e.__cause__, e.__context__]
+        if not any(c is r for c in chain for r in raised):
+            res.violation('unlisted-exception-changed', case,
+                          {'surfaced': exc_sig(e), 'raised_by_user_function': len(raised)},
+                          sig=sig)
+        return
+    res.violation('unlisted-exception-swallowed', case,
+                  {'delivered': repr(got)[:300], 'user_function_raised': len(raised)}, sig=sig)
+
+
 def check_equivalence(ld, n, failing, res, style='bool'):
     """lazy filter == eager filter == FilterException under catch; the
     predicate may return any object with the right truth value."""
@@ -358,12 +456,19 @@ def shards(tier, seed):
             out.append({'name': f'{site}-{"key" if wk else "val"}', 'site': site,
                         'with_key': wk, 'what': 'catch', **LIMITS[tier]})
     out.append({'name': 'equivalence', 'what': 'equiv', **LIMITS[tier]})
+    out.append({'name': 'slots', 'what': 'slots', **LIMITS[tier]})
     return out
 
 
 def run_shard(spec, res):
     ld = import_lazy_dataset()
     N = spec['N']
+    if spec['what'] == 'slots':
+        for slot in slots(ld, None, None):
+            for exc_type in CONTROL_TYPES:
+                for with_catch in (False, True):
+                    check_slot(ld, slot, exc_type, with_catch, res)
+        return
     if spec['what'] == 'equiv':
         from ..terms import TRUTH_STYLES
         for n in range(0, N + 2):
@@ -421,6 +526,10 @@ def finalize(res, tier):
 
 def replay(case, res):
     ld = import_lazy_dataset()
+    if case.get('site') == 'user-function-slots':
+        check_slot(ld, case['slot'], {t.__name__: t for t in CONTROL_TYPES}[case['exception']],
+                   case['catch_unrelated_on_top'], res)
+        return
     if case.get('site') == 'reshuffled-upstream':
         check_epochs(ld, case['n'], case['failing'], case['plan'], case['with_key'], res,
                      case.get('reshuffle', 'below'))
